@@ -32,8 +32,26 @@ class Result(object):
         return sorted(a for a, (d, t) in self.coverage.items() if t == 0)
 
 
+def _jtmp():
+    """TLC leaves one empty tlc-<n> directory per JVM in java.io.tmpdir: keep them out of /tmp and sweep old ones"""
+    d = os.path.join(OUT, "jtmp")
+    os.makedirs(d, exist_ok=True)
+    try:
+        now = time.time()
+        for n in os.listdir(d):
+            q = os.path.join(d, n)
+            if now - os.path.getmtime(q) > 3600:
+                try:
+                    os.rmdir(q)
+                except OSError:
+                    pass
+    except OSError:
+        pass
+    return d
+
+
 def _java_cmd(xmx="6g", props=()):
-    cmd = ["java", "-XX:+UseParallelGC", "-Xmx" + xmx, "-Xss16m"]
+    cmd = ["java", "-XX:+UseParallelGC", "-Xmx" + xmx, "-Xss16m", "-Djava.io.tmpdir=" + _jtmp()]
     cmd += ["-D" + p for p in props]
     cmd += ["-cp", JAR, "tlc2.TLC"]
     return cmd
